@@ -102,27 +102,32 @@ func c18prog(c *Ctx, p *Prog, rel string) {
 		var problems []string
 		var genCall *ssa.Call
 		var predCalls []*ssa.Call
-		for _, b := range fn.Blocks {
-			for _, in := range b.Instrs {
-				if call, ok := in.(*ssa.Call); ok {
-					switch cal := p.Callee(call); {
-					case cal == gen:
-						genCall = call
-					case isPred(cal):
+		// the predicate may be evaluated in the helper itself or in a closure it builds (a search
+		// predicate handed to a generic search loop)
+		scope := append([]*ssa.Function{fn}, fn.AnonFuncs...)
+		for _, g := range scope {
+			for _, b := range g.Blocks {
+				for _, in := range b.Instrs {
+					if call, ok := in.(*ssa.Call); ok && isPred(p.Callee(call)) {
 						predCalls = append(predCalls, call)
 					}
 				}
+			}
+		}
+		for _, pc := range predCalls {
+			if gc, ok := p.originOf(pc.Call.Args[0], 0).(*ssa.Call); ok && p.Callee(gc) == gen {
+				genCall = gc
 			}
 		}
 		if genCall == nil || len(predCalls) == 0 {
 			r.Fail("U1", p.FnKey(fn), p.Pos(fn.Pos()), "UNDECIDED: helper does not generate combinations and evaluate a predicate on them")
 			continue
 		}
-		// sorted origin of the generator's argument
+		// sorted origin of the generator's argument (judged where the generator is called)
+		genFn := genCall.Parent()
 		arg := genCall.Call.Args[0]
 		sorted := false
-		inPlace := false
-		if call, ok := arg.(*ssa.Call); ok {
+		if call, ok := p.originOf(arg, 0).(*ssa.Call); ok {
 			if f := p.Callee(call); f != nil && p.IsProduct(f) {
 				// every returned value of f went through the descending sort before the return
 				okAll := true
@@ -138,25 +143,23 @@ func c18prog(c *Ctx, p *Prog, rel string) {
 				sorted = okAll
 			}
 		}
-		if !sorted && p.sortedBefore(genCall, fn, arg) {
-			sorted, inPlace = true, true
+		if !sorted && p.sortedBefore(genCall, genFn, arg) {
+			sorted = true
 		}
-		_ = inPlace
 		if !sorted {
 			problems = append(problems, "combinations are generated from "+p.Sym(arg).String()+", which did not go through the descending sort: the divider is called with unsorted priority lists")
 		}
 		for _, pc := range predCalls {
-			if pc.Call.Args[0] != ssa.Value(genCall) {
+			if p.originOf(pc.Call.Args[0], 0) != ssa.Value(genCall) {
 				problems = append(problems, "the predicate at "+p.InstrPos(pc)+" is not evaluated on the generated combinations")
 			}
-			// pass-through of divider and (for the suitable variants) the limit
-			for i, a := range pc.Call.Args {
+			// pass-through of the caller's divider
+			for _, a := range pc.Call.Args {
 				if isDividerType(a.Type()) {
-					if _, isPar := a.(*ssa.Parameter); !isPar {
+					if par, isPar := p.originOf(a, 0).(*ssa.Parameter); !isPar || par.Parent() != fn {
 						problems = append(problems, "the predicate is not given the caller's divider")
 					}
 				}
-				_ = i
 			}
 		}
 		r.Check(len(problems) == 0, "U1", p.FnKey(fn), p.Pos(fn.Pos()), "sorted copy -> combinations -> predicate", strings.Join(dedup(problems), "; "))
@@ -172,30 +175,217 @@ func c18prog(c *Ctx, p *Prog, rel string) {
 	}
 }
 
+// originOf follows a value back through the plumbing a refactoring introduces: a variable
+// captured by a closure, a local variable with a single store, a component of the tuple a private
+// helper returns, a parameter of a private function with one call site.
+func (p *Prog) originOf(v ssa.Value, depth int) ssa.Value {
+	if v == nil || depth > 8 {
+		return v
+	}
+	switch x := v.(type) {
+	case *ssa.ChangeType:
+		return p.originOf(x.X, depth+1)
+	case *ssa.UnOp:
+		if x.Op != token.MUL {
+			return v
+		}
+		var cell ssa.Value = x.X
+		if fv, ok := cell.(*ssa.FreeVar); ok {
+			// the captured variable: binding of the closure that owns fv
+			owner := fv.Parent()
+			idx := -1
+			for i, f := range owner.FreeVars {
+				if f == fv {
+					idx = i
+				}
+			}
+			if owner.Parent() == nil || idx < 0 {
+				return v
+			}
+			for _, b := range owner.Parent().Blocks {
+				for _, in := range b.Instrs {
+					if mc, ok := in.(*ssa.MakeClosure); ok && mc.Fn == ssa.Value(owner) && idx < len(mc.Bindings) {
+						cell = mc.Bindings[idx]
+					}
+				}
+			}
+		}
+		if al, ok := cell.(*ssa.Alloc); ok {
+			var stored ssa.Value
+			n := 0
+			for _, r := range *al.Referrers() {
+				if st, ok := r.(*ssa.Store); ok && st.Addr == ssa.Value(al) {
+					stored = st.Val
+					n++
+				}
+			}
+			if n == 1 {
+				return p.originOf(stored, depth+1)
+			}
+		}
+		return v
+	case *ssa.Extract:
+		call, ok := x.Tuple.(*ssa.Call)
+		if !ok {
+			return v
+		}
+		cal := p.Callee(call)
+		if cal == nil || !p.IsProduct(cal) {
+			return v
+		}
+		var rv ssa.Value
+		n := 0
+		for _, b := range cal.Blocks {
+			if ret, ok := b.Instrs[len(b.Instrs)-1].(*ssa.Return); ok && b != cal.Recover && x.Index < len(ret.Results) {
+				rv = ret.Results[x.Index]
+				n++
+			}
+		}
+		if n == 1 {
+			return p.originOf(rv, depth+1)
+		}
+		return v
+	case *ssa.Parameter:
+		fn := x.Parent()
+		if obj, _ := fn.Object().(*types.Func); obj != nil && obj.Exported() {
+			return v
+		}
+		if fn.Parent() != nil {
+			return v // parameter of a closure
+		}
+		sites := p.CallSites(fn)
+		if len(sites) != 1 {
+			return v
+		}
+		idx := paramIndex(fn, x)
+		if idx < 0 || idx >= len(sites[0].Common().Args) {
+			return v
+		}
+		return p.originOf(sites[0].Common().Args[idx], depth+1)
+	}
+	return v
+}
+
+// checkU5: the search loop. It sits in the exported helper itself, or in a private search function
+// the helper calls with its maximum and a closure that evaluates the predicate on the candidate.
 func checkU5(c *Ctx, p *Prog, fn *ssa.Function, predCalls []*ssa.Call) {
 	var problems []string
 	upward := strings.Contains(fn.Name(), "Min")
-	var maxPar *ssa.Parameter
-	for _, par := range fn.Params {
-		if b, ok := par.Type().Underlying().(*types.Basic); ok && b.Kind() == types.Uint {
-			maxPar = par
+	uintParam := func(f *ssa.Function) *ssa.Parameter {
+		var out *ssa.Parameter
+		for _, par := range f.Params {
+			if b, ok := par.Type().Underlying().(*types.Basic); ok && b.Kind() == types.Uint {
+				out = par
+			}
+		}
+		return out
+	}
+	loopFn := fn
+	maxPar := uintParam(fn)
+	// isTest: call is the evaluation of the predicate on a candidate; returns the candidate
+	isTest := func(call *ssa.Call) (ssa.Value, bool) {
+		for _, pc := range predCalls {
+			if pc == call {
+				for _, a := range call.Call.Args {
+					if ph, ok := a.(*ssa.Phi); ok {
+						return ph, true
+					}
+				}
+				return nil, true
+			}
+		}
+		return nil, false
+	}
+	if len(sccs(fn.Blocks, blockSet(fn.Blocks))) == 0 {
+		// delegated search: return helper(max, func(q) bool { return pred(..., q, ...) })
+		var helperCall *ssa.Call
+		for _, b := range fn.Blocks {
+			if ret, ok := b.Instrs[len(b.Instrs)-1].(*ssa.Return); ok && b != fn.Recover && len(ret.Results) == 1 {
+				if call, ok := ret.Results[0].(*ssa.Call); ok && p.Callee(call) != nil && p.IsProduct(p.Callee(call)) {
+					helperCall = call
+				} else {
+					if k, isK := constDuration(ret.Results[0]); !isK || k != 0 {
+						problems = append(problems, "the helper returns "+p.Sym(ret.Results[0]).String()+" instead of the result of the search")
+					}
+				}
+			}
+		}
+		if helperCall == nil {
+			c.R.Fail("U5", p.FnKey(fn), p.Pos(fn.Pos()), "UNDECIDED: no search loop and no delegated search found")
+			return
+		}
+		h := p.Callee(helperCall)
+		c.R.Funcs[p.FnKey(h)] = true
+		hMax := uintParam(h)
+		var testPar *ssa.Parameter
+		for _, par := range h.Params {
+			if _, isSig := par.Type().Underlying().(*types.Signature); isSig {
+				testPar = par
+			}
+		}
+		if hMax == nil || testPar == nil {
+			c.R.Fail("U5", p.FnKey(fn), p.Pos(fn.Pos()), "UNDECIDED: search function "+h.Name()+" has no (maximum, predicate) parameters")
+			return
+		}
+		// arguments: the caller's maximum and a closure evaluating the predicate on its parameter
+		if a := helperCall.Call.Args[paramIndex(h, hMax)]; a != ssa.Value(maxPar) {
+			problems = append(problems, "the search is given "+p.Sym(a).String()+" as its maximum, not the caller's maximum")
+		}
+		mc, isMC := helperCall.Call.Args[paramIndex(h, testPar)].(*ssa.MakeClosure)
+		if !isMC {
+			problems = append(problems, "the search predicate is not a closure built by the helper")
+		} else {
+			cf := mc.Fn.(*ssa.Function)
+			okBody := false
+			for _, b := range cf.Blocks {
+				if ret, ok := b.Instrs[len(b.Instrs)-1].(*ssa.Return); ok && len(ret.Results) == 1 {
+					if call, ok := ret.Results[0].(*ssa.Call); ok {
+						for _, pc := range predCalls {
+							if pc == call {
+								for _, a := range call.Call.Args {
+									if len(cf.Params) == 1 && a == ssa.Value(cf.Params[0]) {
+										okBody = true
+									}
+								}
+							}
+						}
+					}
+				}
+			}
+			if !okBody || len(cf.Blocks) != 1 {
+				problems = append(problems, "the search predicate closure does not simply evaluate the configuration predicate on the candidate quantity")
+			}
+		}
+		loopFn, maxPar = h, hMax
+		isTest = func(call *ssa.Call) (ssa.Value, bool) {
+			if call.Call.Value == ssa.Value(testPar) && len(call.Call.Args) == 1 {
+				return call.Call.Args[0], true
+			}
+			return nil, false
 		}
 	}
-	comps := sccs(fn.Blocks, blockSet(fn.Blocks))
-	if len(comps) != 1 || maxPar == nil || len(predCalls) != 1 {
-		c.R.Fail("U5", p.FnKey(fn), p.Pos(fn.Pos()), "UNDECIDED: expected one loop, one predicate call and a uint maximum")
+	comps := sccs(loopFn.Blocks, blockSet(loopFn.Blocks))
+	var testCalls []*ssa.Call
+	var cand ssa.Value
+	for _, b := range loopFn.Blocks {
+		for _, in := range b.Instrs {
+			if call, ok := in.(*ssa.Call); ok {
+				if v, ok := isTest(call); ok {
+					testCalls = append(testCalls, call)
+					cand = v
+				}
+			}
+		}
+	}
+	if len(comps) != 1 || maxPar == nil || len(testCalls) != 1 {
+		c.R.Fail("U5", p.FnKey(fn), p.Pos(fn.Pos()), "UNDECIDED: expected one loop, one predicate evaluation and a uint maximum")
 		return
 	}
 	loop := blockSet(comps[0])
-	pc := predCalls[0]
+	tc := testCalls[0]
 	// the quantity argument of the predicate is the loop variable
-	var iv *ssa.Phi
-	for _, a := range pc.Call.Args {
-		if ph, ok := a.(*ssa.Phi); ok && loop[ph.Block()] {
-			iv = ph
-		}
-	}
-	if iv == nil {
+	iv, _ := cand.(*ssa.Phi)
+	if iv == nil || !loop[iv.Block()] {
 		c.R.Fail("U5", p.FnKey(fn), p.Pos(fn.Pos()), "the predicate is not evaluated on the loop variable")
 		return
 	}
@@ -236,7 +426,7 @@ func checkU5(c *Ctx, p *Prog, fn *ssa.Function, predCalls []*ssa.Call) {
 			continue
 		}
 		base, _ := condOf(iff.Cond)
-		if call, isCall := base.(*ssa.Call); isCall && call == pc {
+		if call, isCall := base.(*ssa.Call); isCall && call == tc {
 			continue
 		}
 		cm := p.NormCmp(iff.Cond, stay0)
@@ -257,14 +447,16 @@ func checkU5(c *Ctx, p *Prog, fn *ssa.Function, predCalls []*ssa.Call) {
 		}
 	}
 	// returns
-	for _, b := range fn.Blocks {
+	for _, b := range loopFn.Blocks {
 		ret, ok := b.Instrs[len(b.Instrs)-1].(*ssa.Return)
 		if !ok || b.Comment == "recover" {
 			continue
 		}
 		underPred := false
 		for _, e := range DomEdges(b) {
-			if p.edgeIsCallResult(e, func(f *ssa.Function) bool { return f == p.Callee(pc) }, true) {
+			iff := e.From.Instrs[len(e.From.Instrs)-1].(*ssa.If)
+			base, neg := condOf(iff.Cond)
+			if call, isCall := base.(*ssa.Call); isCall && call == tc && ((e.Succ == 0) != neg) {
 				underPred = true
 			}
 		}
@@ -526,6 +718,49 @@ func checkU7(c *Ctx, p *Prog, gen *ssa.Function) {
 	// the adder returns a fresh slice: make(len(c)+1), copy(c), last = priority
 	var ap []string
 	fresh := false
+	// alternative spelling: append(append(<fresh empty slice>, combination...), priority)
+	appendForm := func(v ssa.Value) bool {
+		outer, ok := v.(*ssa.Call)
+		if !ok {
+			return false
+		}
+		if bi, isB := outer.Call.Value.(*ssa.Builtin); !isB || bi.Name() != "append" || len(outer.Call.Args) != 2 {
+			return false
+		}
+		el, okEl := varargsElem(outer.Call.Args[1])
+		if !okEl || el != ssa.Value(adder.Params[1]) {
+			return false
+		}
+		inner, ok := outer.Call.Args[0].(*ssa.Call)
+		if !ok {
+			return false
+		}
+		if bi, isB := inner.Call.Value.(*ssa.Builtin); !isB || bi.Name() != "append" || len(inner.Call.Args) != 2 || inner.Call.Args[1] != ssa.Value(adder.Params[0]) {
+			return false
+		}
+		if isNilConst(inner.Call.Args[0]) {
+			return true
+		}
+		if ms, isMS := inner.Call.Args[0].(*ssa.MakeSlice); isMS {
+			k, isK := constDuration(ms.Len)
+			return isK && k == 0
+		}
+		return false
+	}
+	allAppend := true
+	nres := 0
+	for _, b := range adder.Blocks {
+		if ret, ok := b.Instrs[len(b.Instrs)-1].(*ssa.Return); ok && b.Comment != "recover" && len(ret.Results) == 1 {
+			nres++
+			if !appendForm(ret.Results[0]) {
+				allAppend = false
+			}
+		}
+	}
+	if nres > 0 && allAppend {
+		c.R.Pass("U7", p.FnKey(adder), p.Pos(adder.Pos()), "fresh copy with the priority appended last (append form)")
+		return
+	}
 	for _, s := range p.resultSyms(adder, 0) {
 		if ms, ok := s.V.(*ssa.MakeSlice); ok {
 			l := deepStrip(p.Sym(ms.Len))
